@@ -172,6 +172,12 @@ def check_formats(run: Run, scratch, stats):
             raise RuntimeError(f"vacuous: no ragged {f} collection with the first sequence shortest / longest by more than two lines")
     if tot.get("default_width_roundtrips", 0) == 0:
         raise RuntimeError("vacuous: no ragged round trip at the default line width")
+    # names with an interior run of blanks and with an interior tab, in every format
+    for f in ("fasta", "phylip", "paml", "gde", "json"):
+        nm = ["".join(n) for r in recs if r["from"]["fmt"] == f for n in r["from"]["names"]]
+        for needle in ("  ", "   ", "\t"):
+            if not any(needle in x.strip() for x in nm):
+                raise RuntimeError(f"vacuous: no {f} name with {needle!r} inside")
     if not any(len("".join(n)) > 9 for r in recs if r["from"]["fmt"] == "phylip" for n in r["from"]["names"]):
         raise RuntimeError("vacuous: no PHYLIP name longer than 9 characters")
     return len(jobs), tot.get("loads", 0) + tot.get("parses", 0)
@@ -223,6 +229,8 @@ def check(run: Run):
     )
     run.assumptions += [
         "names contain at least one non-blank character and no control characters; names of one collection stay distinct after the format's truncation",
+        "white space INSIDE a name (runs of 2-3 blanks, a tab; digit-only and residue-only words) must come back verbatim in every format "
+        "(PHYLIP: within the first 9 characters): the parsers strip the edges of a label only; clustal/msf column layouts have no registered writer and no round trip",
         "PHYLIP truncation is the writer's: names longer than 9 characters keep their first 9 (format/phylip.py)",
         "sequences use upper-case residues and '-' (the bytes FASTA parser upper-cases by documented design); residues A/C of the model are instantiated per case as DNA A/C, RNA A/U or protein M/K",
         "zero-length sequences are only exercised in ragged unaligned collections (FASTA, GDE, JSON) and reported under the class empty-seq",
